@@ -84,6 +84,7 @@ func checkC07(c *Ctx) {
 		if pk.Name == "diff" {
 			c.Rule("C07.R1.visited-keys", "the visited-set key of the diff analyser distinguishes every location field, so that which comparison runs does not depend on iteration order", 4)
 			checkLocationKey(c, "C07.R1.visited-keys", pk)
+			checkVisitedOrder(c, "C07.R1.visited-order", pk, false)
 		}
 	}
 	// template names are global and the default templates are loaded by ranging a map: a name
